@@ -108,6 +108,7 @@ pub struct Runner<'a> {
     pub out: &'a mut Out,
     pub seed: u64,
     pub chunk: usize,
+    pub cur_dry: bool,
     pub probe_ops: bool,
     pub probe_steps: bool,
     /// pre-loaded (possibly stale) indexed handles
@@ -145,6 +146,7 @@ impl Runner<'_> {
                 ev[k] = v.clone();
             }
         }
+        self.cur_dry = ev.get("dry").and_then(Value::as_bool).unwrap_or(false);
         self.w.emit(self.out, ev.clone());
         crate::util::watch::arm(std::env::var("VH_CMD_TIMEOUT").ok().and_then(|v| v.parse().ok()).unwrap_or(120), &ev.to_string());
         proc_
@@ -152,6 +154,11 @@ impl Runner<'_> {
 
     fn end<T>(&mut self, proc_: u32, res: &Outcome<T>) {
         crate::util::watch::disarm();
+        if self.cur_dry {
+            // worker threads a dry-run command leaves behind (e.g. a packer dropped without finalize) get their chance:
+            // whatever they write still carries the command's handle number
+            std::thread::sleep(std::time::Duration::from_millis(250));
+        }
         self.w.flush_ops(self.out, self.probe_ops);
         let refused = res.msg().to_lowercase().contains("append-only");
         self.w.emit(self.out, json!({"e":"end","proc":proc_,"res":res.class(),"msg":res.msg(),"ao_refused":refused}));
@@ -576,6 +583,7 @@ pub fn run_program_world(prog: &Value, out: &mut Out) -> Option<World> {
         probe_steps: mode != "none",
         handles: BTreeMap::new(),
         nproc: 0,
+        cur_dry: false,
     };
     let steps = prog["steps"].as_array().unwrap();
     let sweep = prog.get("sweep").and_then(Value::as_u64).map(|x| x as usize);
@@ -597,7 +605,7 @@ pub fn run_program_world(prog: &Value, out: &mut Out) -> Option<World> {
                 w2.emit(r.out, json!({"e":"baseline"}));
                 let mut st2 = st.clone();
                 st2["fail_at"] = json!(k);
-                let mut r2 = Runner { w: w2, out: &mut *r.out, seed, chunk, probe_ops: false, probe_steps: true,
+                let mut r2 = Runner { w: w2, out: &mut *r.out, seed, chunk, cur_dry: false, probe_ops: false, probe_steps: true,
                                       handles: BTreeMap::new(), nproc: 500 };
                 r2.step(&st2);
             }
